@@ -508,6 +508,46 @@ theorem C09_other_codec_is_copied (C : Compression) (minBlocks : Nat) (s : Sourc
   | true => rfl
   | false => exact absurd (mustCopy_false C minBlocks s hm).2.2 h
 
+/-- Stored fields stay aligned with doc ids across a merge: the live document `j` of the `k`-th source
+gets the new doc id `base + rank`, where `base` is the number of live documents of the sources
+before it and `rank` the number of live documents before `j` in its own segment (this is the id
+the postings / fast fields of the merged segment use), and fetching that id from the merged store
+returns exactly that document — on the copy path and on the stacking path. -/
+theorem C09_merged_doc_address (C : Compression) (hC : GoodCompression C) (K P minBlocks bs : Nat) (hK : 1 ≤ K)
+    (hP : 2 ≤ P) (hbs : bs < 4294967296) (segs : List (SourceSegment × List Bytes))
+    (hsegs : ∀ p ∈ segs, SegOK C P bs p.1 p.2)
+    (k j : Nat) (s : SourceSegment) (docs : List Bytes) (hk : segs[k]? = some (s, docs))
+    (hj : j < docs.length) (halive : s.alive j = true) :
+    ∃ w, (segs.map (·.1)).foldl (mergeStep C K minBlocks) (some (Writer.new bs)) = some w ∧
+      let merged : StoreFile :=
+        { data := (w.sendBlock C).written, index := finishedLayers P (w.sendBlock C).checkpoints,
+          decompId := C.id, version := Gen.DOC_STORE_VERSION }
+      let base := (((segs.take k).map fun p => liveDocs p.1.alive 0 p.2).flatten).length
+      getBytes C merged (base + numAlive s.alive j) = docs[j]? := by
+  obtain ⟨w, e, _, _, hget⟩ := C09_merge_store C hC K P minBlocks bs hK hP hbs segs hsegs
+  refine ⟨w, e, ?_⟩
+  intro merged base
+  have hrank := liveDocs_rank s.alive docs 0 j hj (by simpa using halive)
+  simp only [Nat.zero_add] at hrank
+  have hlt : numAlive s.alive j < (liveDocs s.alive 0 docs).length := by
+    have : (liveDocs s.alive 0 docs)[numAlive s.alive j]? = some docs[j] := by
+      unfold numAlive; rw [hrank, List.getElem?_eq_getElem hj]
+    exact (List.getElem?_eq_some_iff.mp this).1
+  have hkk : (segs.map fun p => liveDocs p.1.alive 0 p.2)[k]? = some (liveDocs s.alive 0 docs) := by
+    rw [List.getElem?_map, hk]; rfl
+  have hflat := flatten_getElem_at (segs.map fun p => liveDocs p.1.alive 0 p.2) k (numAlive s.alive j) _ hkk hlt
+  have hlive : (segs.map fun p => liveDocs p.1.alive 0 p.2).flatten ≠ [] := by
+    intro h0
+    rw [h0] at hflat
+    have : (liveDocs s.alive 0 docs)[numAlive s.alive j]? = some docs[j] := by
+      unfold numAlive; rw [hrank, List.getElem?_eq_getElem hj]
+    simp [this] at hflat
+  have hbase : base = ((segs.map fun p => liveDocs p.1.alive 0 p.2).take k).flatten.length := by
+    simp only [base, List.map_take]
+  rw [hget hlive, hbase, hflat]
+  unfold numAlive
+  exact hrank
+
 /-- Filtered merges (`merge_filtered_segments`, `IndexMerger::open_with_custom_alive_set`): each source
 is presented with the intersection of its own deletes and the caller's filter, and `has_deletes()`
 is computed on that intersection (`max_doc − num_alive > 0`). The merged store then holds exactly
@@ -775,5 +815,8 @@ example : ∀ d ∈ ([[1], [2, 2], [3]] : List Bytes), d ≠ [] ∧ Gen.TEMP_STO
 /-- hypotheses of `C09_merge_mapped_from_stores`: two stores, a mapping interleaving them -/
 example : pickDocs ([(fun (_ : Nat) => true, [[1], [2]]), (fun i => i != 0, [[3], [4]])].map
     fun s => liveDocs s.1 0 s.2) [1, 0, 0] = some [[4], [1], [2]] := by decide
+
+/-- document 2 of a segment whose document 1 is deleted has rank 1 -/
+example : numAlive (fun i => i != 1) 2 = 1 ∧ (liveDocs (fun i => i != 1) 0 [[1], [2], [3]])[1]? = some [3] := by decide
 
 end TantivyModel.C09
